@@ -24,7 +24,9 @@ class Prop(PropBase):
                 if t == 'RSM1_JUMBO' and r % 3 != 0:
                     continue
                 cfg = scen.rand_cfg(rng, dense=0)
-                scn_all.append(scen.mixed_scenario(rng, self.L, t, f'c01_{t}_{r}', cfg))
+                # every third scenario: a caller that owns ONE cloud object and hands it back on every get (legal: each get comes after the
+                # previous cloud was consumed by the put callback): the delivered clouds still hold every sample
+                scn_all.append(scen.mixed_scenario(rng, self.L, t, f'c01_{t}_{r}', cfg, answers=([1] * 80 if r % 3 == 1 else None)))
         # jumbo packets whose sub-packet numbering rewinds in the middle of a packet (a frame boundary inside one MSOP packet): every
         # sub-packet behind the boundary is still decoded, into the new frame
         l = self.L['RSM1_JUMBO']
